@@ -115,9 +115,25 @@ CRLFFails(o) ==
   ELSE (IF o.whole.map = o.lf.map THEN {} ELSE {"crlf_map"})
   \cup (IF o.whole.ret = o.lf.ret THEN {} ELSE {"crlf_ret"})
   \cup (IF o.whole.bbox = o.lf.bbox THEN {} ELSE {"crlf_box"})
+\* Signature of the known defect D11 (text.rs measures a CR LF terminated line with its CR): the
+\* picture of T is the overlay of the lines of T' with every line that was CR LF terminated moved
+\* left by the difference of the alignment offsets of the two widths.  Used only in the detail of
+\* a (f) verdict so that known_findings.json can pin HOW the case fails; never decides a verdict.
+AlignOffsetD11(align, w) == CASE align = 0 -> 0 [] align = 2 -> w - 1 [] OTHER -> TruncDiv(w - 1, 2)
+D11Explains(o) ==
+  LET tls == SplitLF(o.text) IN
+  /\ Len(tls) = Len(o.lines)
+  /\ ROverlayEq(o.whole.map,
+       [j \in 1..Len(o.lines) |->
+          IF EndsWithCR(tls[j]) /\ o.lines[j].text = SubSeq(tls[j], 1, Len(tls[j]) - 1)
+          THEN RShift(o.lines[j].map,
+                      <<AlignOffsetD11(o.align, LineWidth(o.font, Len(tls[j]) - 1))
+                        - AlignOffsetD11(o.align, LineWidth(o.font, Len(tls[j]))), 0>>)
+          ELSE o.lines[j].map])
 CRLFDetail(o) ==
   [rel |-> "crlf", text |-> o.text, align |-> o.align, ret |-> o.whole.ret, lf_ret |-> o.lf.ret,
-   bbox |-> o.whole.bbox, lf_bbox |-> o.lf.bbox, box |-> RBox(o.whole.map), lf_box |-> RBox(o.lf.map)]
+   bbox |-> o.whole.bbox, lf_bbox |-> o.lf.bbox, box |-> RBox(o.whole.map), lf_box |-> RBox(o.lf.map),
+   d11 |-> D11Explains(o)]
 
 \* (b)
 ChainFails(o, i) ==
